@@ -180,7 +180,22 @@ static void op_lsr(int which, size_t n, unsigned long seed, int fl)
   gfree(src); gfree(dst);
 }
 
-/* hist: 0 = soxr_create at 1:1; 1 ("-clr") = the same, a few frames processed, soxr_clear(), then the run;
+/* pull mode ("-pull"): the input function hands the block out in pieces of at most `piece` frames */
+static struct { char * base; void * * chans; size_t isz, n, pos, piece; unsigned ch; int split; void * ptrs[64]; } PULL;
+static size_t pull_fn(void * st, soxr_in_t * data, size_t req)
+{
+  size_t k = PULL.n - PULL.pos; unsigned c;
+  (void)st;
+  if (k > req) k = req;
+  if (k > PULL.piece) k = PULL.piece;
+  if (PULL.split) { for (c = 0; c < PULL.ch; ++c) PULL.ptrs[c] = (char *)PULL.chans[c] + PULL.pos * PULL.isz; *data = PULL.ptrs; }
+  else *data = PULL.base + PULL.pos * PULL.ch * PULL.isz;
+  PULL.pos += k;
+  return k;
+}
+
+/* hist: 3 ("-pull") = soxr_set_input_fn + soxr_output in requests that each need several rounds of the input function;
+         0 = soxr_create at 1:1; 1 ("-clr") = the same, a few frames processed, soxr_clear(), then the run;
    2 ("-lazy") = soxr_create(0, 0, ...) and soxr_set_io_ratio(s, 1, 0) (deferred initialisation, as soxr-lsr.c does). */
 static void op_api(int eng_d, int itype, int otype, int isplit, int osplit, int dith, size_t n, unsigned ch,
     unsigned long seed, int fl, int hist)
@@ -217,9 +232,25 @@ static void op_api(int eng_d, int itype, int otype, int isplit, int osplit, int 
   }
   s->seed = seed;
   set_stale_flag(fl);
+  if (hist == 3) {
+    size_t req = 7 + seed % 60;
+    PULL.base = isplit? 0 : ib[0].p; PULL.chans = ip; PULL.isz = isz; PULL.n = n; PULL.pos = 0; PULL.piece = 1 + (seed >> 8) % 9;
+    PULL.ch = ch; PULL.split = isplit;
+    if ((err = soxr_set_input_fn(s, pull_fn, 0, 3 * PULL.piece))) {printf("ERR set_input_fn %s\n", err); soxr_delete(s); goto done;}
+    while (total < cap_out) {
+      void * o2[64]; void * out2; size_t want = cap_out - total < req? cap_out - total : req;
+      if (osplit) {for (c = 0; c < ch; ++c) o2[c] = (char *)ob[c].p + total * osz; out2 = o2;}
+      else out2 = (char *)ob[0].p + total * ch * osz;
+      odone = soxr_output(s, out2, want);
+      if (!odone) break;
+      total += odone;
+    }
+    err = soxr_error(s);
+  } else {
   err = soxr_process(s, isplit? (void *)ip : ib[0].p, n, &idone, osplit? (void *)op : ob[0].p, cap_out, &odone);
   total = odone;
-  while (!err && total < cap_out) {                            /* flush */
+  }
+  while (hist != 3 && !err && total < cap_out) {               /* flush */
     void * o2[64]; void * out2;
     if (osplit) {for (c = 0; c < ch; ++c) o2[c] = (char *)ob[c].p + total * osz; out2 = o2;}
     else out2 = (char *)ob[0].p + total * ch * osz;
@@ -341,7 +372,7 @@ int main(void)
       int it = tcode((char[]){kern[6], kern[7], kern[8], 0}), ot = tcode((char[]){kern[10], kern[11], kern[12], 0});
       if (it < 0 || ot < 0 || ch < 1 || ch > 32) {printf("ERR bad kernel\n"); continue;}
       op_api(kern[4] == 'd', it, ot, kern[14] == 's', kern[15] == 's', !!strstr(kern, "-dith"), n, ch, seed, fl,
-          strstr(kern, "-clr")? 1 : strstr(kern, "-lazy")? 2 : 0);
+          strstr(kern, "-clr")? 1 : strstr(kern, "-lazy")? 2 : strstr(kern, "-pull")? 3 : 0);
     } else printf("ERR bad kernel\n");
     fflush(stdout);
   }
